@@ -200,6 +200,43 @@ def config_targets(res):
             if zt is t or after != before:
                 res.fail(c, 'C20: the Fxp-valued setting %s of a derived object is shared with its source: using / changing it changed the source\'s' % opt, expected=before, got=(zt is t, after))
 
+def failed_derivation(res):
+    """a derivation that FAILS (here: indexing / like= / arithmetic on an object whose callback raises during the construction of the
+    derived object) leaves its operand as it was"""
+    fx = lib.impl(); import numpy as np
+    class Strict:
+        def __init__(self, which): self.which = which
+        def on_status_overflow(self, obj):
+            if self.which == 'range': raise ArithmeticError('out of range')
+        def on_status_underflow(self, obj):
+            if self.which == 'range': raise ArithmeticError('out of range')
+        def on_status_inaccuracy(self, obj): pass
+        def on_value_change(self, obj):
+            if self.which == 'readonly': raise PermissionError('read only')
+    for which in ('range', 'readonly'):
+        for route in ('getitem', 'slice', 'chained_write', 'like', 'add', 'neg'):
+            c = {'failed_derivation': route, 'callback': which}
+            res.count('F:failed-derivations', key=repr(c), nontrivial=True)
+            x = fx.Fxp([[20.5, 21.25], [30.0, 17.0]], False, 8, 4, scale=1, bias=16)      # (the placeholder zero of a derived object is not representable here)
+            before = (lib.codes_of(x), A.fmt_of(x), lib.status3(x), x.dtype)
+            x.callbacks.append(Strict(which))
+            try:
+                if route == 'getitem': x[1]
+                elif route == 'slice': x[0:1]
+                elif route == 'chained_write': x[1][0] = 20.0
+                elif route == 'like': fx.Fxp(18.0, like=x)
+                elif route == 'add': x + x
+                else: -x
+            except (ArithmeticError, PermissionError): pass
+            except Exception as e:
+                res.fail(c, 'C20: a derivation with a raising callback raised %s' % lib.exc_name(e), got=str(e)[:200]); continue
+            try: after = (lib.codes_of(x), A.fmt_of(x), lib.status3(x), x.dtype)
+            except Exception as e: after = ('unreadable', lib.exc_name(e), str(e)[:80])
+            if route == 'chained_write': before_cmp = before[1:]; after_cmp = after[1:]       # (a write that went through is fine; the object must still be whole)
+            else: before_cmp, after_cmp = before, after
+            if after_cmp != before_cmp or x.val is None:
+                res.fail(c, 'C20: a derivation that failed (a callback raised while the derived object was built) changed / destroyed its operand', expected=before, got=after)
+
 def inputs_unchanged(rng, res):
     fx = lib.impl(); import numpy as np
     containers = [
@@ -268,7 +305,7 @@ def shard(shard, nshards, rng, tier, extra):
         run_history(random.Random(hseed), res, hseed)
     for _ in range(12 if tier == 'quick' else 200): view_write_through(rng, res)
     if shard == 0:
-        inputs_unchanged(rng, res); clip_bounds_unchanged(res); invalid_config(rng, res); config_targets(res)
+        inputs_unchanged(rng, res); clip_bounds_unchanged(res); invalid_config(rng, res); config_targets(res); failed_derivation(res)
     return res
 
 def run(seed, tier):
@@ -284,4 +321,5 @@ def replay(payload):
     elif 'clip' in c: clip_bounds_unchanged(res)
     elif 'key' in c: invalid_config(None, res)
     elif 'target_option' in c: config_targets(res)
+    elif 'failed_derivation' in c: failed_derivation(res)
     return {'holds': not res.failures, 'failures': res.failures}
